@@ -263,6 +263,9 @@ class Interp:
                 return [(cons, F(self.m.true_false[d]), ptags)]
             if self.m.tag_enum_prefix and d and d.startswith(self.m.tag_enum_prefix):
                 return [(cons, Val("tag", tags=[d[len(self.m.tag_enum_prefix):]]), ptags)]
+            if d in self.m.wrap_variants or d in self.m.const_variants or d in (self.m.hir or {}):
+                # a constructor / function used as a value (`helper(Tag, Variant::Ctor, x)`): applied where it is called
+                return [(cons, Val("fn", items=[d]), ptags)]
             raise Uninterpretable("path %s" % d, line)
         if k == "Lit":
             if e.get("lit") == "bool":
@@ -426,6 +429,9 @@ class Interp:
             arg_exprs = [e["recv"]] + e["args"]
         else:
             arg_exprs = e["args"]
+            fexp = e.get("f") or {}
+            if not callee and fexp.get("k") == "Path" and fexp.get("res") == "local" and fexp.get("name") in env and env[fexp["name"]].kind == "fn":
+                callee = env[fexp["name"]].items[0]
         # evaluate arguments
         outs = [(cons, [], ptags)]
         for x in arg_exprs:
